@@ -4,7 +4,9 @@
   The relay scans its queues after EVERY value (`updateInitialWindowSize`), so a frame released
   under an earlier value stays released under the later ones.  When no value of the frame exceeds
   the LAST one (the one in force afterwards) every release is covered by it; otherwise it need not
-  be (`c09_repeated_settings_larger_intermediate_witness`).  Core-only.
+  be (`c09_repeated_settings_larger_intermediate_witness`, F51).  Applying only the last value of
+  every identifier before the queues are scanned (`applySettingsLastOnly`) covers every frame.
+  Core-only.
 -/
 import FwdVerif.Lemmas.H2Credit
 import FwdVerif.Lemmas.H2Settings
@@ -180,6 +182,40 @@ theorem Released.applySettings_lastMax {o : Dir α} {L : Ledger} (h : Book o L) 
   have := (UpTo.applySettings h ord k kvs hc).1
   rw [← (applySettings_cfg o ord k kvs).1] at this
   exact this.released
+
+theorem initAllLe_absent (V : Int) (t : List (Nat × Nat)) (h : settingInitialWindowSize ∉ t.map (·.1)) :
+    initAllLe V t := by
+  induction t with
+  | nil => trivial
+  | cons kv rest ih =>
+    obtain ⟨i, v⟩ := kv
+    simp only [List.map_cons, List.mem_cons, not_or] at h
+    exact ⟨fun e => absurd e.symm h.1, ih h.2⟩
+
+/-- in a frame that names no identifier twice the (only) SETTINGS_INITIAL_WINDOW_SIZE value is the
+    last one -/
+theorem initAllLe_of_nodup (d : Int) (kvs : List (Nat × Nat)) (h : (kvs.map (·.1)).Nodup) :
+    initAllLe (lastOfInt settingInitialWindowSize d kvs) kvs := by
+  induction kvs generalizing d with
+  | nil => trivial
+  | cons kv rest ih =>
+    obtain ⟨i, v⟩ := kv
+    simp only [List.map_cons, List.nodup_cons] at h
+    simp only [initAllLe, lastOfInt]
+    by_cases hi : i = settingInitialWindowSize
+    · subst hi
+      simp only [if_true]
+      rw [lastOfInt_absent _ _ _ h.1]
+      exact ⟨fun _ => Int.le_refl _, initAllLe_absent _ _ h.1⟩
+    · simp only [hi, if_false]
+      exact ⟨fun e => e.elim, ih d h.2⟩
+
+/-- **the fix pattern**: when only the last value of every identifier is applied before the queues
+    are scanned, every release is within the credit in force after the frame — for EVERY frame -/
+theorem Released.applySettingsLastOnly {o : Dir α} {L : Ledger} (h : Book o L) (ord : Nat → List Nat)
+    (kvs : List (Nat × Nat)) :
+    Released (H2.applySettingsLastOnly o ord kvs).1 (H2.applySettingsLastOnly o ord kvs).2 :=
+  Released.applySettings_lastMax h ord 0 (lastOcc kvs) (initAllLe_of_nodup _ _ (lastOcc_nodup kvs))
 
 end H2
 end FwdVerif
